@@ -30,12 +30,14 @@ BGrid(c, s, t) == [q \in 1..(c.tr[s].nl * c.nj * c.ni) |->
       j == (((q - 1) \div c.ni) % c.nj) + 1
       l == ((q - 1) \div (c.ni * c.nj)) + 1
   IN F(Token(s, t, l, j, i))]
-Tau0(c, t) == c.tau + 24 * (t - 1)
+\* cumulative averages (c.cum): every block starts at c.tau and ends later than the one before
+Tau0(c, t) == IF c.cum THEN c.tau ELSE c.tau + 24 * (t - 1)
+Tau1(c, t) == c.tau + 24 * t
 Skip(c, s) == 4 * c.ni * c.nj * c.tr[s].nl + 8
 
 BpchBlock(c, s, t) ==
   << << S(<<"G","E","O","S","5","_","4","7","L">>, 20), F(4), F(5), I(0), I(1) >>,
-     << S(c.tr[s].cat, 40), I(c.tr[s].id), S(c.tr[s].unit, 40), Dbl(Tau0(c, t)), Dbl(Tau0(c, t) + 24),
+     << S(c.tr[s].cat, 40), I(c.tr[s].id), S(c.tr[s].unit, 40), Dbl(Tau0(c, t)), Dbl(Tau1(c, t)),
         S(<<>>, 40), I(c.ni), I(c.nj), I(c.tr[s].nl), I(c.i0), I(c.j0), I(c.l0), I(Skip(c, s)) >>,
      BGrid(c, s, t) >>
 BpchLayout(c) ==
